@@ -4,13 +4,12 @@
    Stack::pop/push = the interpreter's wrappers, `while state < n { dispatch; state += 1 }` with `continue` on jumps).
    NOT provable here: that rustc accepts the emitted text and that the executable behaves as [ir_run] says — that is
    the rustc run of tools/hv/compchecks.py, which also compares the emitted structure with the IR.
-   compiled_sound/complete cover levels 0 and 1 (no serialised pre-state; any container kind); the level-2 pre-state
-   path (Num::from_string of the printed stacks: C09; translated labels) is covered by the IR-vs-definition run and
-   the refutation witness below — [partial]. *)
+   compiled_sound/complete cover levels 0 and 1 (no serialised pre-state; any container kind); the level-2 theorems cover
+   the serialised pre-state under explicit premises on the pre-executed state — [partial]. *)
 From Coq Require Import List NArith Bool.
 Import ListNotations.
-From HV Require Import Model.Parse Model.Exec Model.Opt Model.Compile Proofs.OptSpec Proofs.CompSpec.
-From HV Require Proofs.CompProofs.
+From HV Require Import Model.Parse Model.Exec Model.Opt Model.Compile Proofs.OptSpec Proofs.CompSpec Proofs.CoroSpec Proofs.Comp2Spec.
+From HV Require Proofs.CompProofs Proofs.CompLevel2.
 Open Scope N_scope.
 
 (* the generated if/else tree runs block i and only it when state = i, for every number of blocks *)
@@ -47,6 +46,29 @@ Theorem C03_compiled_complete_partial : forall k fuel code input,
   end.
 Proof. exact CompProofs.compiled_complete. Qed.
 Print Assumptions C03_compiled_complete_partial.
+
+(* level 2: the emitted program with its serialised pre-state (stacks printed as number texts and read back, selected
+   stack, label table and white-heart target translated to block indices, start block, captured output printed first)
+   resumes the interpreter exactly at the first residual command — both directions.  Premises: what pre-execution leaves
+   behind as far as build_source relies on it: jump targets are area-carrying commands of the log, stack keys are unique
+   and the stored numbers canonical (a NaN of negative sign would read back as the canonical NaN: behaviourally the same,
+   structurally not — the one thing that keeps this from being unconditional) *)
+Theorem C03_compiled_level2_sound_partial : forall s log rest input fuel, rest <> [] -> area_targets log s -> stacks_canon s ->
+  match run_pre fuel (log ++ rest) (with_input s input) (N.of_nat (length log)) with
+  | FFuel _ _ => True
+  | FPanic _ => True
+  | x => exists fuel', ibeh (ir_run fuel' (build_ir true 2 s log rest) input) = beh x
+  end.
+Proof. exact CompLevel2.compiled2_sound. Qed.
+Print Assumptions C03_compiled_level2_sound_partial.
+Theorem C03_compiled_level2_complete_partial : forall s log rest input fuel, rest <> [] -> area_targets log s -> stacks_canon s ->
+  match ir_run fuel (build_ir true 2 s log rest) input with
+  | IFuel _ => True
+  | IBadState => False
+  | y => exists fuel', beh (run_pre fuel' (log ++ rest) (with_input s input) (N.of_nat (length log))) = ibeh y
+  end.
+Proof. exact CompLevel2.compiled2_complete. Qed.
+Print Assumptions C03_compiled_level2_complete_partial.
 
 (* the pinned compiler (before fix 7d19713) resumed a level-2 program at the wrong block; the repaired one agrees
    with the interpreter on the witness *)
